@@ -69,7 +69,7 @@ impl InstructionGenerator {
             Expression::BuiltInFunctionCall(n, args) => {
                 self.generate_built_in_function_call_instructions(n, args, pos);
             }
-            Expression::BinaryExpression(op, left, right, _) => {
+            Expression::BinaryExpression(op, left, right, expression_type) => {
                 self.generate_expression_instructions(*left);
                 self.push(Instruction::PushAToValueStack, pos);
                 self.generate_expression_instructions(*right);
@@ -79,7 +79,13 @@ impl InstructionGenerator {
                     Operator::Plus => self.push(Instruction::Plus, pos),
                     Operator::Minus => self.push(Instruction::Minus, pos),
                     Operator::Multiply => self.push(Instruction::Multiply, pos),
-                    Operator::Divide => self.push(Instruction::Divide, pos),
+                    Operator::Divide => {
+                        self.push(Instruction::Divide, pos);
+                        // the quotient is a floating point number even if it happens to be whole
+                        if let ExpressionType::BuiltIn(q) = expression_type {
+                            self.push(Instruction::Cast(q), pos);
+                        }
+                    }
                     Operator::Modulo => self.push(Instruction::Modulo, pos),
                     Operator::Less => self.push(Instruction::Less, pos),
                     Operator::LessOrEqual => self.push(Instruction::LessOrEqual, pos),
